@@ -147,8 +147,14 @@ class Interp:
         AV; missing parameters take their defaults).  Returns the joined
         return value; per-path returns are in ``self.entry_returns``."""
         self.entry_returns = []
-        val = self.call_teneva(fn, [], dict(args), None, self_=self_,
-                               entry=True)
+        from . import poly as _poly
+        saved = _poly.EXPAND[0]
+        _poly.EXPAND[0] = bool(self.opts.get('expand'))
+        try:
+            val = self.call_teneva(fn, [], dict(args), None, self_=self_,
+                                   entry=True)
+        finally:
+            _poly.EXPAND[0] = saved
         return val
 
     # ------------------------------------------------------------------
@@ -295,6 +301,13 @@ class Interp:
             names |= set(e)
         for n in names:
             vals = [e[n] for e in envs if n in e]
+            if n == '$order':
+                if len(vals) < len(envs):
+                    out[n] = ()
+                else:
+                    out[n] = tuple(f for f in vals[0]
+                                   if all(f in v for v in vals[1:]))
+                continue
             if n == '$facts':
                 common = set(vals[0])
                 for v in vals[1:]:
@@ -313,7 +326,31 @@ class Interp:
         m = getattr(self, 'st_' + type(st).__name__, None)
         if m is None:
             return [Outcome('next', env)]
+        from . import poly as _poly
+        _poly.ORDER_FACTS[:] = list(env.get('$order', ()))
         return m(st, env)
+
+    def add_order(self, env, test, pol):
+        """Record an ordering fact from an undecided integer comparison."""
+        if not (isinstance(test, ast.Compare) and len(test.ops) == 1):
+            return
+        a = self.eval(test.left, env)
+        b = self.eval(test.comparators[0], env)
+        if a.k != 'int' or b.k != 'int' or a.p is None or b.p is None:
+            return
+        op = type(test.ops[0])
+        pa, pb = a.p, b.p
+        fact = None
+        if op in (ast.LtE,):
+            fact = (pa, pb) if pol else (pb + 1, pa)
+        elif op is ast.Lt:
+            fact = (pa + 1, pb) if pol else (pb, pa)
+        elif op is ast.GtE:
+            fact = (pb, pa) if pol else (pa + 1, pb)
+        elif op is ast.Gt:
+            fact = (pb + 1, pa) if pol else (pa, pb)
+        if fact is not None:
+            env['$order'] = tuple(env.get('$order', ())) + (fact,)
 
     def st_Pass(self, st, env):
         return [Outcome('next', env)]
@@ -451,6 +488,8 @@ class Interp:
         self.refine(st.test, e2, False)
         self.add_fact(e1, st.test, True)
         self.add_fact(e2, st.test, False)
+        self.add_order(e1, st.test, True)
+        self.add_order(e2, st.test, False)
         self.cond += 1
         try:
             o1 = self.exec_block(st.body, e1)
@@ -611,7 +650,7 @@ class Interp:
     def widen(self, old, new, st):
         out = dict(new)
         for n, v in new.items():
-            if n == '$facts':
+            if n.startswith('$'):
                 continue
             o = old.get(n)
             if o is None or o.key() == v.key():
@@ -1413,7 +1452,7 @@ def _flat_labels(label):
 
 def env_key(env):
     return tuple(sorted((n, v.key()) for n, v in env.items()
-                        if n != '$facts' and isinstance(v, AV)))
+                        if not n.startswith('$') and isinstance(v, AV)))
 
 
 def snapshot(v, memo=None):
